@@ -62,10 +62,15 @@ PARTIAL = [
     "a resumed call that closes its session and then opens a second one in the same call is not in the model "
     "(opening is modelled as its own request)",
     "preemption inside a single bytecode / C call is not explored",
+    "the model does not track the deadline of a bounded lock wait: under a discipline with `acquire(timeout=…)` the "
+    "failing acquire is enabled whenever another thread holds the lock (an over-approximation; the extracted discipline "
+    "of the tree is a blocking acquire, for which the step is disabled — `timeoutDisabled`)",
 ]
 RULE = (
     "hand-written thread programs (request / request with in-method close_session / DELETE / opening call / direct "
-    "sweep / shutdown / clock ticks that stop short of, hit and cross the TTL; 1-2 sessions, one with a foreign "
+    "sweep / shutdown / clock ticks that stop short of, hit and cross the TTL, and ticks of 6 s .. 11 min; slow handlers that "
+    "sleep 0.5 s / 6 s / 65 s per step on the logical clock while their session is ended from outside (so that any bounded "
+    "wait for the session lock expires: a timed acquire fails once the logical clock passes its deadline); 1-2 sessions, one with a foreign "
     "principal key) + random programs; the real reaper thread is always present; every schedule with <= 2 (quick) / "
     "3 (thorough) preemptions at lock/clock granularity (capped per program), capped exploration with line-level "
     "preemption, then PCT / random-walk schedules. A case is one (program, schedule); non-trivial when at least two "
@@ -214,7 +219,9 @@ class World:
             if tok is not None:
                 self.box["minted"].append(tok)
 
-    def op_call(self, k: int, steps: int, close_at: int) -> None:
+    def op_call(self, k: int, steps: int, close_at: int, slow: int = 0) -> None:
+        """One request on session k.  `slow` > 0: a slow handler — every method step SLEEPS `slow` units on the logical
+        clock (the thread is blocked, the other threads and the clock go on; timed waits elsewhere can expire)."""
         ds = self.ds
         ds.emit("req", k)
 
@@ -226,7 +233,10 @@ class World:
                 if i == close_at:
                     ds.emit("csess")
                     ctx.close_session()
-                ds.point(what="method step")
+                if slow > 0:
+                    ds.time.sleep(slow * Q)
+                else:
+                    ds.point(what="method step")
                 ds.emit("mstep")
             ds.emit("dend", st.idx)
 
@@ -301,7 +311,7 @@ def worker(ds: DetSched, w: World, prog: list[list[Any]]) -> None:
             if kind == "call":
                 k = ref(op[1])
                 if k is not None:
-                    w.op_call(k, op[2], op[3])
+                    w.op_call(k, op[2], op[3], op[4] if len(op) > 4 else 0)
             elif kind == "delete":
                 k = ref(op[1])
                 if k is not None:
@@ -433,6 +443,15 @@ def analyse(ds_epoch: float, run: Any) -> dict[str, Any]:
                 pass
             else:
                 anomalies.append(f"operation on an unexpected lock {name}")
+        elif k == "timeout":
+            # a timed lock acquire returned False (the model's `entTimeout`, enabled only under a bounded-wait discipline)
+            name = ev[2]
+            if name.startswith("ent"):
+                labels.append(["etimeout", t, int(name[3:])])
+            else:
+                anomalies.append(f"timed acquire of {name} failed")
+        elif k == "tryfail":
+            anomalies.append(f"non-blocking acquire of {ev[2]} failed")
         elif k == "req":
             role[t] = "request"
             touched.setdefault(ev[2], set()).add(t)
@@ -541,6 +560,9 @@ def judge(ctx: Any, cfg: dict[str, Any], run: Any, an: dict[str, Any], model: An
         f"conc:threads{len(cfg['threads'])}", f"conc:closed{min(sum(an['cstart'].values()), 3)}",
         "conc:shared-session" if shared else "conc:no-shared-session",
         *(f"conc:op:{k}" for k in kinds),
+        "conc:slow-handler" if any(op[0] == "call" and len(op) > 4 and op[4] for prog in cfg["threads"] for op in prog)
+        else "conc:fast-handler",
+        "conc:lock-wait-timed-out" if any(l[0] == "etimeout" for l in an["labels"]) else "conc:no-lock-timeout",
     ))
     # ---- O
     if run.status != "ok":
@@ -599,6 +621,19 @@ def judge(ctx: Any, cfg: dict[str, Any], run: Any, an: dict[str, Any], model: An
 S0 = {"ttl": 4}  # a session that expires after 4 units (2 s; the reaper ticks every 2 units)
 SL = {"ttl": 400}  # a long-lived session
 SF = {"ttl": 400, "pm": False}  # registered under a foreign principal key
+
+# long dispatches: a handler that sleeps 6 s / 65 s per step while its session is ended from outside (TTL + reaper,
+# DELETE, shutdown, in-line expiry in another request's lookup); any bounded wait for the session lock expires
+LONG_CORPUS: list[dict[str, Any]] = [
+    {"ttl": 4, "sessions": [S0], "threads": [[["call", 0, 2, -1, 12]], [["tick", 1]]]},
+    {"ttl": 400, "sessions": [SL], "threads": [[["call", 0, 2, -1, 12]], [["delete", 0]]]},
+    {"ttl": 400, "sessions": [SL], "threads": [[["call", 0, 2, -1, 130]], [["shutdown"]]]},
+    {"ttl": 4, "sessions": [S0], "threads": [[["call", 0, 3, -1, 12]], [["call", 0, 1, -1]]]},
+    # the clock is moved by a third party while the handler is merely parked
+    {"ttl": 400, "sessions": [SL], "threads": [[["call", 0, 2, -1]], [["shutdown"]], [["tick", 30], ["tick", 1300]]]},
+    # a long call that closes its own session, a queued request and the reaper
+    {"ttl": 4, "sessions": [S0], "threads": [[["call", 0, 2, 1, 12]], [["call", 0, 1, -1, 12]]]},
+]
 
 CORPUS: list[dict[str, Any]] = [
     # request vs reaper, the clock crosses the TTL
@@ -660,11 +695,12 @@ def gen_cfg(rng: Any, threads: int) -> dict[str, Any]:
             k = rng.randrange(len(sessions))
             if r < 0.4:
                 steps = rng.choice([1, 1, 2])
-                prog.append(["call", k, steps, rng.choice([-1, -1, 0, steps - 1])])
+                slow = rng.choice([0, 0, 0, 1, 12, 12, 130])  # a handler that sleeps 0.5 s / 6 s / 65 s per step
+                prog.append(["call", k, steps, rng.choice([-1, -1, 0, steps - 1]), slow])
             elif r < 0.55:
                 prog.append(["delete", k])
             elif r < 0.7:
-                prog.append(["tick", rng.choice([1, 2, ttl, ttl + 1])])
+                prog.append(["tick", rng.choice([1, 2, ttl, ttl + 1, 12, 130, 1300])])
             elif r < 0.8:
                 prog.append(["open", rng.choice([None, ttl]), rng.choice([0, 1]), rng.choice([-1, -1, 0])])
                 if rng.random() < 0.6:
@@ -782,6 +818,8 @@ def run(ctx: Any) -> None:
     bound = 3 if thorough else 2
     per = ctx.budget(400, 2000)  # schedules per program: all with 0 preemptions, then 1, then 2 … up to the cap
     cfgs: list[tuple[dict[str, Any], int, int, int]] = []
+    for c in LONG_CORPUS:
+        cfgs.append((dict(c, src="long"), per // 2, bound, per // 10))
     for c in CORPUS:
         cfgs.append((dict(c, src="corpus"), per, bound, per // 10))
     for c in CORPUS[:5] + CORPUS[6:7]:
